@@ -275,7 +275,7 @@ def run_workers(cases: list[dict], jobs: int = 12) -> list[dict]:
     results: list[dict | None] = [None] * len(cases)
     for p, idxs, fo in procs:
         try:
-            _, err = p.communicate(timeout=CASE_BUDGET_S * 4 + 2 * len(idxs))
+            _, err = p.communicate(timeout=CASE_BUDGET_S * 4 + 30 * len(idxs))  # generous: a killed worker reads as a failure
         except subprocess.TimeoutExpired:
             p.kill()
             _, err = p.communicate()
@@ -284,7 +284,7 @@ def run_workers(cases: list[dict], jobs: int = 12) -> list[dict]:
             if k < len(lines):
                 results[i] = json.loads(lines[k])
             else:
-                results[i] = {"error": {"type": "WorkerDied", "msg": (err or "")[-300:]}, "events": [],
+                results[i] = {"error": {"type": "WorkerDied", "msg": f"rc={p.returncode} " + (err or "")[-300:]}, "events": [],
                               "schemas": None, "sanitized": {}, "seconds": None}
     for f in tmp.glob("*"):
         f.unlink()
